@@ -47,6 +47,7 @@ type outcome struct {
 	Status int    `json:"st"`
 	Sig    string `json:"sig,omitempty"`
 	What   string `json:"what,omitempty"`
+	Retire bool   `json:"retire,omitempty"` // the worker exits after this reply (it holds a huge dead block)
 }
 
 const (
@@ -220,6 +221,11 @@ func attribute(entry int, data []byte) (leaf, site, where string, grown int64) {
 	before := memProfile()
 	guarded(entry, data)
 	after := memProfile()
+	lastProfile, sinceProfile = after, 0
+	return biggestGrowth(before, after)
+}
+
+func biggestGrowth(before, after map[[32]uintptr]int64) (leaf, site, where string, grown int64) {
 	var best [32]uintptr
 	for k, v := range after {
 		if d := v - before[k]; d > grown {
@@ -237,6 +243,30 @@ func attribute(entry int, data []byte) (leaf, site, where string, grown int64) {
 	return
 }
 
+// Re-running a call that allocates hundreds of megabytes is slow (the block is
+// re-used and must be zeroed page by page), so big excesses are attributed
+// without a second run: the profile is diffed against a snapshot that is at
+// most profileEvery calls old (legitimate allocations of so few calls cannot
+// add up to half of a >= 32 MiB excess at one site).
+const (
+	profileEvery = 1000
+	noRerunFrom  = 32 << 20
+	retireFrom   = 64 << 20
+)
+
+var (
+	lastProfile  map[[32]uintptr]int64
+	sinceProfile int
+)
+
+// tick is called by the worker loop before every call.
+func tick() {
+	sinceProfile++
+	if sinceProfile >= profileEvery {
+		lastProfile, sinceProfile = memProfile(), 0
+	}
+}
+
 // checkOne applies the totality oracle to one input: no panic, and bytes
 // allocated during the call <= 64*len(data) + 1 MiB.
 func checkOne(entry int, data []byte) outcome {
@@ -249,7 +279,7 @@ func checkOne(entry int, data []byte) outcome {
 		if site == "" {
 			site = "?"
 		}
-		return outcome{Status: stPanic,
+		return outcome{Status: stPanic, Retire: a1-a0 >= retireFrom,
 			Sig:  "panic:" + site + ":" + panicClass(pv),
 			What: fmt.Sprintf("%s on %d bytes panicked: %v (at %s in %s); input %s", entryNames[entry], len(data), pv, where, site, hexPrefix(data))}
 	}
@@ -272,7 +302,18 @@ func checkOne(entry int, data []byte) outcome {
 			return outcome{Status: st}
 		}
 	}
-	leaf, site, where, grown := attribute(entry, data)
+	var leaf, site, where string
+	var grown int64
+	if used >= noRerunFrom {
+		after := memProfile()
+		leaf, site, where, grown = biggestGrowth(lastProfile, after)
+		lastProfile, sinceProfile = after, 0
+		if uint64(grown) < used/2 {
+			leaf, site, where = "", "", ""
+		}
+	} else {
+		leaf, site, where, grown = attribute(entry, data)
+	}
 	if used <= bound+gobChunk && uint64(grown) <= gobChunk &&
 		(strings.HasPrefix(leaf, "internal/saferio.") || strings.HasPrefix(leaf, "encoding/gob.")) {
 		return outcome{Status: stGobSlop}
@@ -281,7 +322,7 @@ func checkOne(entry int, data []byte) outcome {
 		site = entryNames[entry]
 		where = "unattributed"
 	}
-	return outcome{Status: stAlloc,
+	return outcome{Status: stAlloc, Retire: used >= retireFrom,
 		Sig: "alloc-bound:" + site,
 		What: fmt.Sprintf("%s on %d bytes allocated %d bytes (bound %d = 64*len+1MiB) and returned err=%v; largest site %s (%s, %d bytes, allocator caller %s); input %s",
 			entryNames[entry], len(data), used, bound, err, site, where, grown, leaf, hexPrefix(data))}
